@@ -14,8 +14,10 @@ import (
 	"bytes"
 	"context"
 	"crypto/ecdsa"
+	"crypto/ed25519"
 	"crypto/elliptic"
 	crand "crypto/rand"
+	"crypto/rsa"
 	"crypto/sha256"
 	"crypto/x509"
 	"database/sql"
@@ -63,6 +65,8 @@ type vwWorld struct {
 	unknown  []string // IDs that are not configured
 	maxN     int
 	wKeyPEM  string
+	wKind    string // witness key: p256 | rsa | ed25519 (New accepts it, tls.CreateSignature cannot use it)
+	canSign  bool
 	wVerify  *verifier.WitnessVerifier
 	sigTok   map[string]int
 	rawTok   map[string]int
@@ -87,8 +91,8 @@ func vwLogID(k *ecdsa.PrivateKey) (string, []byte) {
 	return base64.StdEncoding.EncodeToString(h[:]), h[:]
 }
 
-func newVWWorld(r *verifkit.Rand, nLogs, maxN int) *vwWorld {
-	w := &vwWorld{maxN: maxN, sigTok: map[string]int{}, rawTok: map[string]int{}, signed: map[string]ct.DigitallySigned{}}
+func newVWWorld(r *verifkit.Rand, nLogs, maxN int, kind string) *vwWorld {
+	w := &vwWorld{wKind: kind, canSign: kind != "ed25519", maxN: maxN, sigTok: map[string]int{}, rawTok: map[string]int{}, signed: map[string]ct.DigitallySigned{}}
 	for i := 0; i < nLogs; i++ {
 		k := vwGenKey()
 		id, h := vwLogID(k)
@@ -125,19 +129,45 @@ func newVWWorld(r *verifkit.Rand, nLogs, maxN int) *vwWorld {
 	uid, _ := vwLogID(uk)
 	w.unknown = []string{uid, "garbage", "", "a b"}
 	w.otherKey = uk
-	wk := vwGenKey()
-	der, err := x509.MarshalPKCS8PrivateKey(wk)
+	var priv, pub interface{}
+	switch kind {
+	case "rsa":
+		vwRSAOnce.Do(func() {
+			var err error
+			if vwRSAKey, err = rsa.GenerateKey(crand.Reader, 2048); err != nil {
+				panic(err)
+			}
+		})
+		priv, pub = vwRSAKey, &vwRSAKey.PublicKey
+	case "ed25519":
+		p, s, err := ed25519.GenerateKey(crand.Reader)
+		if err != nil {
+			panic(err)
+		}
+		priv, pub = s, p
+	default:
+		wk := vwGenKey()
+		priv, pub = wk, &wk.PublicKey
+	}
+	der, err := x509.MarshalPKCS8PrivateKey(priv)
 	if err != nil {
 		panic(err)
 	}
 	w.wKeyPEM = string(pem.EncodeToMemory(&pem.Block{Type: "PRIVATE KEY", Bytes: der}))
-	wv, err := verifier.NewWitnessVerifier(&wk.PublicKey)
-	if err != nil {
-		panic(err)
+	if w.canSign {
+		wv, err := verifier.NewWitnessVerifier(pub)
+		if err != nil {
+			panic(err)
+		}
+		w.wVerify = wv
 	}
-	w.wVerify = wv
 	return w
 }
+
+var (
+	vwRSAOnce sync.Once
+	vwRSAKey  *rsa.PrivateKey
+)
 
 func (w *vwWorld) realLogs() []*vwLog {
 	var ls []*vwLog
@@ -331,14 +361,14 @@ func (w *vwWorld) candToks(c *vwCand, target *vwLog, known bool) string {
 // ---------------------------------------------------------------- one witness instance + the harness-side oracle
 
 type vwInst struct {
-	w    *vwWorld
-	wit  *Witness
-	db   *sql.DB
-	held map[string]*vwCand // harness' own record of what each log's row must hold
+	w     *vwWorld
+	wit   *Witness
+	db    *sql.DB
+	held  map[string]*vwCand // harness' own record of what each log's row must hold
 	byRaw map[string]*vwCand // every candidate submitted so far, by raw bytes (to resynchronise after a failure)
-	out  *verifkit.Out
-	name string
-	nOps int
+	out   *verifkit.Out
+	name  string
+	nOps  int
 }
 
 func (w *vwWorld) newInst(t *testing.T, out *verifkit.Out, dsn, name string) *vwInst {
@@ -360,7 +390,11 @@ func (w *vwWorld) newInst(t *testing.T, out *verifkit.Out, dsn, name string) *vw
 		t.Fatal(err)
 	}
 	var b strings.Builder
-	fmt.Fprintf(&b, "new %d", len(w.logs))
+	if w.canSign {
+		fmt.Fprintf(&b, "new %d", len(w.logs))
+	} else {
+		fmt.Fprintf(&b, "newx %d", len(w.logs)) // a witness whose signSTH always fails
+	}
 	for _, l := range w.logs {
 		h := "x"
 		if l.idHash != nil {
@@ -413,6 +447,22 @@ func (in *vwInst) canon(reply []byte, err error, key string) string {
 		}
 		if len(cs.WitnessSigs) != 1 {
 			in.out.Fail(key, fmt.Sprintf("%d witness signatures", len(cs.WitnessSigs)))
+		}
+		// the cosignature is over tls.Marshal of exactly the STH it accompanies: the model's `cosigInput` must give the same
+		// bytes, and the witness signature must verify over them
+		if in.w.canSign {
+			signedBytes, merr := tls.Marshal(cs.SignedTreeHead)
+			if merr != nil {
+				in.out.Fail(key, "tls.Marshal of the returned STH: "+merr.Error())
+			} else {
+				if verr := in.w.wVerify.SigVerifier.VerifySignature(signedBytes, tls.DigitallySigned(cs.WitnessSigs[0])); verr != nil {
+					in.out.Fail(key, "cosig_verifies: the witness signature does not verify over tls.Marshal of the STH it accompanies")
+				}
+				in.out.T(fmt.Sprintf("cosin %d %d %d %s %d %d %s %s", cs.Version, cs.TreeSize, cs.Timestamp, verifkit.Hex(cs.SHA256RootHash[:]),
+					cs.TreeHeadSignature.Algorithm.Hash, cs.TreeHeadSignature.Algorithm.Signature, verifkit.Hex(cs.TreeHeadSignature.Signature), verifkit.Hex(cs.LogID[:])),
+					verifkit.Hex(signedBytes))
+				in.out.Count("class:cosig-input")
+			}
 		}
 		sb, _ := tls.Marshal(tls.DigitallySigned(cs.TreeHeadSignature))
 		return fmt.Sprintf("cosig %d %d %s %s %s", cs.TreeSize, cs.Timestamp, verifkit.Hex(cs.SHA256RootHash[:]), verifkit.Hex(cs.LogID[:]),
@@ -527,6 +577,23 @@ func (in *vwInst) update(id string, target *vwLog, known bool, c *vwCand, pf [][
 	after := in.stored(id)
 	in.out.T(fmt.Sprintf("upd %s %s %s", vwID(id), in.w.candToks(c, target, known), vProofToks(pf)), ans)
 	in.out.Count("class:" + class)
+	if !in.w.canSign && strings.HasPrefix(ans, "err") && target != nil && c.valid(target, known) {
+		// a valid STH is answered with a bodyless error only when signSTH failed: the update is refused, so the
+		// row must be unchanged (refused_unchanged). It is not, while Update commits before it signs.
+		in.out.Count("mode:sign-failure")
+		if !bytes.Equal(before, after) {
+			in.out.Fail(fmt.Sprintf("%s op%d commit-before-sign %s", in.name, in.nOps, class),
+				"refused_unchanged: Update answered with an error ("+fmt.Sprint(err)+") but the stored row was replaced by the submitted STH ("+c.desc+")")
+			if !bytes.Equal(after, c.raw) {
+				in.out.Fail(key, "after a failed signature the row is neither the old nor the submitted STH")
+			}
+			if prev != nil && (c.size <= prev.size || !vwExtends(prev, c)) {
+				in.out.Fail(key, "monotone: the row written before the failed signature is not an extension of the held head")
+			}
+			in.held[id] = c
+		}
+		return
+	}
 	if in.checkUpdate(key, id, target, known, c, before, prev, reply, err, after, ans) {
 		in.held[id] = c
 	}
@@ -546,7 +613,11 @@ func (in *vwInst) get(id string) {
 	ans := in.canon(reply, err, key)
 	in.out.T("get "+vwID(id), ans)
 	in.out.Count("class:get")
-	if h := in.held[id]; h != nil {
+	if h := in.held[id]; h != nil && !in.w.canSign {
+		if ans != "err x" {
+			in.out.Fail(key, "GetSTH of a witness that cannot sign: "+ans)
+		}
+	} else if h != nil {
 		if !strings.HasPrefix(ans, "cosig") {
 			in.out.Fail(key, "GetSTH does not return the held STH: "+ans)
 		} else {
@@ -976,14 +1047,22 @@ func TestVerifC19(t *testing.T) {
 			if verifkit.Thorough() && r.Intn(4) == 0 {
 				maxN = 130
 			}
-			world = newVWWorld(r.Fork(), 2+r.Intn(2), maxN)
+			kind := map[int]string{1: "ed25519", 3: "rsa"}[(i/8)%5]
+			if kind == "" {
+				kind = "p256"
+			}
+			world = newVWWorld(r.Fork(), 2+r.Intn(2), maxN, kind)
 		}
+		out.Count("mode:witness-key-" + world.wKind)
 		dsn, name := ":memory:", fmt.Sprintf("seed%d w%d mem", seed, i)
 		var file string
 		if i%4 == 3 {
 			file = filepath.Join(dir, fmt.Sprintf("c19-%d-%d-%d.db", os.Getpid(), seed, i))
 			os.Remove(file)
 			dsn, name = file, fmt.Sprintf("seed%d w%d file", seed, i)
+		}
+		if world.wKind != "p256" {
+			name += " " + world.wKind
 			out.Count("mode:db-file")
 		} else {
 			out.Count("mode:db-memory")
@@ -991,7 +1070,7 @@ func TestVerifC19(t *testing.T) {
 		in := world.newInst(t, out, dsn, name)
 		rr := r.Fork()
 		for j := 0; j < nOps; j++ {
-			if i%2 == 1 && rr.Intn(6) == 0 {
+			if i%2 == 1 && world.canSign && rr.Intn(6) == 0 {
 				in.concurrent(rr, 2+rr.Intn(7))
 			} else {
 				in.step(rr)
